@@ -12,7 +12,7 @@ import tempfile
 from vlib import core
 import gen_c10_members as gen
 
-HARNESS = ["c10", "sem"]
+HARNESS = ["c10", "sem", "c15"]
 
 TB = ("Coq 8.16.1 kernel and vm_compute; hand-written Gallina models (coq/model/Builtins.v, BuiltinsHeap.v) tied to the code by "
       "(1) the member inventory re-read from the Go sources on every run (go/ast translator tools/gen_c10_members.go, trusted to "
@@ -817,12 +817,57 @@ def run(chk, replay=None):
         if replay is not None and replay.get("kind") == "program":
             run_sequences(chk, replay)
             return
+        if replay is not None and replay.get("kind") == "modules":
+            run_module_programs(chk, replay)
+            return
         _run(chk, replay, quick, fnd, cwd)
     finally:
         shutil.rmtree(cwd, ignore_errors=True)
     fnd.flush(chk)
     if replay is None:
+        run_module_programs(chk)
         run_sequences(chk)
+
+
+def run_module_programs(chk, replay=None):
+    """programs made of several files, ending in a fault whose rendering walks frames of several modules: a method of one module
+    called under a local name or handed over as a value and called by another module, with the files of very different lengths
+    (the faulting line may lie beyond the end of the file of the frame that is shown).  Judged for crashes only."""
+    rng = chk.rng
+    cases = []
+    if replay is not None:
+        cases = [replay["case"]]
+    else:
+        faults = ["输出 1 / 数", "输出【1】#{数 + 5}", "输出 未定义名 + 数", "令文 = “{}” % 数\n    输出文", "抛出异常：“坏”"]
+        for _ in range(24 if chk.tier == "quick" else 300):
+            pad_lib = "".join("令填%d = %d\n" % (i, i) for i in range(rng.choice([0, 1, 3, 10, 25])))
+            pad_main = "".join("令垫%d = %d\n" % (i, i) for i in range(rng.choice([0, 0, 1, 5, 30])))
+            lib = pad_lib + "如何求倒数？\n    输入数\n    %s\n\n如何应用？\n    输入法、量\n    输出（法：量）\n" % rng.choice(faults)
+            how = rng.randrange(4)
+            if how == 0:
+                main = "导入“库”\n" + pad_main + "令算 = 求倒数\n输出（算：0）\n"
+            elif how == 1:
+                main = "导入“库”\n" + pad_main + "输出（应用：求倒数、0）\n"
+            elif how == 2:
+                main = "导入“库”\n" + pad_main + "如何本地？\n    输入数\n    %s\n\n输出（应用：本地、0）\n" % rng.choice(faults)
+            else:
+                main = "导入“库”\n" + pad_main + "令表 = 【求倒数】\n令取 = 表#1\n输出（取：0）\n"
+            if rng.random() < 0.25:
+                main += "\n拦截异常：\n    输出其内容\n"
+            cases.append({"files": {"主.zn": main, "库.zn": lib}, "main": "主.zn"})
+    tmproot = tempfile.mkdtemp(prefix="znc10m_")
+    try:
+        outs = core.harness("c15", "run", [dict(c, root=tmproot) for c in cases], timeout_ms=20000)
+    finally:
+        shutil.rmtree(tmproot, ignore_errors=True)
+    for c, o in zip(cases, outs):
+        chk.count(["modules", c["files"]])
+        chk.dist("module-programs")
+        cls = panic_class(o)
+        if cls:
+            chk.violation("%s while executing / rendering the error of a program of two files: 主.zn = %r, 库.zn = %r" % (
+                cls, c["files"]["主.zn"][:200], c["files"]["库.zn"][:200]), "modules:%s" % cls,
+                {"kind": "modules", "case": c, "observed": o, "replay_cmd": "./check C10 --replay <this file>"})
 
 
 def run_sequences(chk, replay=None):
